@@ -8,3 +8,6 @@ package hpack
 func VerifHuffmanCode(sym byte) (code uint32, nbits uint8) {
 	return huffmanCodes[sym], huffmanCodeLen[sym]
 }
+
+// VerifSavedLen returns the number of octets the decoder keeps from earlier Write calls (saveBuf).
+func VerifSavedLen(d *Decoder) int { return d.saveBuf.Len() }
